@@ -15,6 +15,7 @@ class CaseOracle:
         self.ctors = spec["ctors"]
         self.comp_ids = set(spec["mws"]) | set(spec["handlers"]) | set(spec["fallbacks"])
         self.boot_ids = {}      # singleton ctor id -> instance id
+        self.boot_ids_by_type = {}  # (generic singleton ctor id, concrete type) -> instance id
         self.boot_instances = {}  # instance id (incl. clones made at boot) -> (origin, root)
         self.stats = {"requests": 0, "events": 0, "clone_events": 0, "fail_events": 0, "early": 0, "eh_enters": 0, "obs_enters": 0,
                       "seq_exact": 0, "seq_subseq": 0, "routes_judged": 0, "fallbacks_judged": 0, "unjudged": 0,
@@ -32,11 +33,14 @@ class CaseOracle:
         for i, e in enumerate(evs):
             if e["k"] in ("construct", "fail"):
                 c = e["c"]
-                counts[c] = counts.get(c, 0) + 1
+                # (a generic singleton constructor builds one value per concrete specialisation)
+                ck = (c, e.get("t")) if self.ctors[c].get("generic_param") else c
+                counts[ck] = counts.get(ck, 0) + 1
                 if self.ctors[c]["lc"] != "singleton":
                     out.append(V("C03", "non_singleton_built_at_boot", {"event": e}, lc=self.ctors[c]["lc"]))
                 if e["k"] == "construct":
                     self.boot_ids[c] = e["id"]
+                    self.boot_ids_by_type[(c, e.get("t"))] = e["id"]
                     self.boot_instances[e["id"]] = (c, e["id"])
             elif e["k"] == "clone":
                 self.stats["clone_events"] += 1
@@ -45,7 +49,7 @@ class CaseOracle:
             out += self._check_inputs(e, i, evs, "boot", None)
         for c, n in counts.items():
             if n > 1:
-                out.append(V("C03", "singleton_built_twice", {"ctor": c, "n": n}))
+                out.append(V("C03", "singleton_built_twice", {"ctor": c if isinstance(c, str) else list(c), "n": n}))
         if boot_fail:
             failed = [e for e in evs if e["k"] == "fail"]
             if failed and rec.get("result") != "err":
@@ -85,8 +89,9 @@ class CaseOracle:
                 out.append(V("C04", "origin_builds_other_type", {"event": e}))
             lc = c["lc"]
             if lc == "singleton":
-                if self.boot_ids.get(origin) != root:
-                    out.append(V("C03", "singleton_instance_not_from_boot", {"event": e, "boot": self.boot_ids.get(origin)}))
+                want = self.boot_ids_by_type.get((origin, t)) if c.get("generic_param") else self.boot_ids.get(origin)
+                if want != root:
+                    out.append(V("C03", "singleton_instance_not_from_boot", {"event": e, "boot": want}))
                 if iid != root and iid not in self.boot_instances and (live is None or iid not in live):
                     out.append(V("C03", "singleton_copy_of_unknown_provenance", {"event": e}))
             else:
